@@ -253,4 +253,52 @@ def Step.touchesConfig : Step → Bool
   | .wipe _ => true
   | _ => false
 
+/-! ## a restart during which stored values cannot be read (F64)
+
+  `util.Storage.Get` can fail for a reason other than "there is no such value" (no file descriptor left, an I/O error,
+  a permission): `Faults` says which of the four reads of `NewIPTransport` fail that way during one start. -/
+
+structure Faults where
+  uuid : Bool := false
+  version : Bool := false
+  configHash : Bool := false
+  /-- the read of the entity stored under the device id (`hap.NewDevice`) -/
+  entity : Bool := false
+deriving DecidableEq, Repr
+
+/-- `(*Config).load` returns the error -/
+def Faults.load (f : Faults) : Bool := f.uuid || f.version || f.configHash
+
+/-- `NewIPTransport` when some reads fail: the name and the setup code are checked first; `load` returns before anything
+    is written; the id is stored; `hap.NewDevice` creates a key pair only when there is no entity (`os.IsNotExist`) and
+    returns every other error. `none`: the constructor returned that error (there is no transport). -/
+def startF (H : J → β) (s : St β) (c : StartCfg) (f : Faults) : St β × Option Out :=
+  if (start H s c).2 = .started then
+    if f.load then (s, none)
+    else if f.entity then
+      ({ s with store := { s.store with uuid := some (s.store.uuid.getD c.freshId) } }, none)
+    else ((start H s c).1, some .started)
+  else start H s c |>.map id some
+
+/-- what the start sees of the storage when an unreadable value is taken for a missing one -/
+def mask (f : Faults) (c : StartCfg) (s : St β) : St β :=
+  let uuid := if f.uuid then none else s.store.uuid
+  { s with store :=
+      { uuid := uuid
+        version := if f.version then none else s.store.version
+        configHash := if f.configHash then none else s.store.configHash
+        entities := if f.entity then remove (uuid.getD c.freshId) s.store.entities else s.store.entities } }
+
+/-- the behaviour before the repair of F64: every error of a read was "no such value" – a new id, version 1 and a new
+    key pair were stored over the values which could not be read right now -/
+def startFOld (H : J → β) (s : St β) (c : StartCfg) (f : Faults) : St β × Option Out :=
+  if (start H s c).2 = .started then start H (mask f c s) c |>.map id some
+  else start H s c |>.map id some
+
+/-- a history of steps, each start with the reads which fail during it -/
+def runF (H : J → β) (s : St β) : List (Step × Faults) → St β
+  | [] => s
+  | (.start c, f) :: xs => runF H (startF H s c f).1 xs
+  | (st, _) :: xs => runF H (step H s st).1 xs
+
 end Hc.Config
